@@ -183,16 +183,14 @@ def run(chk, ctx):
                             {k: Sym('field', k) for k in
                              ('major_version', 'minor_version', 'revision')})
     okv = False
-    if isinstance(v, Sym) and v.op == 'concat' and len(v.args) == 2 and \
-            v.args[0] == b'AMQP' and isinstance(v.args[1], Sym) and \
-            v.args[1].op == 'pack':
-        ff = T.fmt(v.args[1].args[0])
-        a = v.args[1].args[1]
-        okv = len(ff.values) == 4 and ff.size == 4 and all(
-            x[1] == 1 and x[2] is False for x in ff.values) and \
-            a[0] == 0 and a[1] is Sym('field', 'major_version') and \
-            a[2] is Sym('field', 'minor_version') and \
-            a[3] is Sym('field', 'revision')
+    items = L.flat(v) if v is not None else []
+    if items and items[0][0] == 'const' and items[0][1] == b'AMQP\x00' \
+            and len(items) == 4:
+        okv = all(it[0] == 'fld' and it[1] == 1 and it[2] is False and
+                  it[4] == 'int' and it[5] is Sym('field', nm)
+                  for it, nm in zip(items[1:], ('major_version',
+                                                'minor_version',
+                                                'revision')))
     chk.ob('C18.V', 'protocol header encode', okv,
            'marshal -> %s' % T.show(v)[:100], site='pamqp/header.py')
     # constructors: what the caller passes is what is stored (the frames
